@@ -141,6 +141,53 @@ pub fn run(r: &Report) {
     );
     r.note("type_instantiations", json!(table.len()));
 
+    // tokens: every variant with boundary payloads, compared by value (integers numerically, floats by bits)
+    {
+        let sub = "tokens";
+        r.space(sub, true, "every Token variant with boundary payloads (64-bit lattice for integers, lengths and tags; all 256 simple values; half-representable F16; string/bytes lengths 0..65536) x suffix in {none, 00, ff}: to_vec then decode::<Token>", 1);
+        let toks = crate::c07::tokens();
+        let mut ok = 0u64;
+        for t in &toks {
+            let bytes = match mcx::par::guard(|| minicbor::to_vec(t)) {
+                Ok(Ok(b)) => b,
+                other => {
+                    r.fail(sub, None, json!({"token": format!("{:?}", t).chars().take(80).collect::<String>()}), format!("encoding failed: {:?}", other.map(|x| x.map(|_| ()).map_err(|e| e.to_string()))));
+                    continue;
+                }
+            };
+            let mut good = true;
+            for suffix in [&[][..], &[0x00][..], &[0xff][..]] {
+                let mut input = bytes.clone();
+                input.extend_from_slice(suffix);
+                mcx::slot::case("Token", &input);
+                let mut d = Decoder::new(&input);
+                let back = mcx::par::guard(|| d.decode::<minicbor::data::Token>().map_err(|e| e.to_string()));
+                let case = || json!({"token": format!("{:?}", t).chars().take(80).collect::<String>(), "encoded_hex": hex(&bytes[..bytes.len().min(48)]), "suffix_hex": hex(suffix)});
+                match back {
+                    Ok(Ok(u)) => {
+                        if !crate::c11::tok_eq(&crate::c11::to_ref(t), &crate::c11::to_ref(&u)) {
+                            r.fail(sub, None, case(), format!("decoded back as {:?}", u).chars().take(200).collect::<String>());
+                            good = false;
+                        } else if d.position() != bytes.len() {
+                            r.fail(sub, None, case(), format!("decoder consumed {} bytes, the encoder produced {}", d.position(), bytes.len()));
+                            good = false;
+                        }
+                    }
+                    other => {
+                        r.fail(sub, None, case(), format!("decoding the produced bytes failed: {:?}", other.map(|x| x.map(|_| ()))));
+                        good = false;
+                    }
+                }
+            }
+            if good {
+                ok += 1;
+            }
+        }
+        r.add(sub, toks.len() as u64 * 3, ok);
+        r.outcome(sub, "tokens", toks.len() as u64);
+        r.sample(sub, json!({"token": "Simple(255)", "encoded_hex": "f8ff"}));
+    }
+
     // refusals: values the encoder itself must refuse
     {
         let sub = "encoder-refusals";
